@@ -43,7 +43,7 @@ theorem snoc_induction {α : Type} {motive : List α → Prop} (nil : motive [])
 
 /-! ### what the cached QR depends on -/
 
-/-- the data the interpolation matrix is built from (model.py:303-311): the stored points in row
+/-- the data the interpolation matrix is built from (model.py:309-317): the stored points in row
     order and the index of `xopt`. -/
 def geom (s : MState P R) : List P × Nat := (s.slots.map (·.pt), s.kopt)
 
@@ -133,7 +133,7 @@ theorem run_fact_geometry (avg : Nat → R → R → R) (s0 : MState P R) (h0 : 
 
 /-! ### the evaluation-number snapshot -/
 
-/-- `eval_num.copy()` (model.py:388): the labels of the rows, zero beyond `npt_so_far`. -/
+/-- `eval_num.copy()` (model.py:394): the labels of the rows, zero beyond `npt_so_far`. -/
 def labelsOf (s : MState P R) : List Nat :=
   s.slots.map (·.en) ++ List.replicate (s.cap - s.slots.length) 0
 
